@@ -153,7 +153,8 @@ def run_case(case, out):
             t0 = time.monotonic()
         else:
             if not ready.wait(90):
-                result["harness_error"] = "initiator never became ready: " + _tail(errf.name)
+                ierr = next((e.get("error", "") + " " + e.get("tb", "")[-200:] for e in events if e.get("event") == "initiator_error"), "")
+                result["harness_error"] = "initiator never became ready: " + (ierr or _tail(errf.name))
                 return
             # the moment of the removal relative to what the initiator is doing (a transfer towards a worker needs a
             # moment to be under way)
